@@ -658,9 +658,8 @@ func (t *RDPToken) FromBytes(src []byte) error {
 	if err := binary.Read(buf, RDPTokenBytesOrder, &t.ClassOptions); err != nil {
 		return err
 	}
-	if buf.Len() > 0 {
-		t.Optional = append(t.Optional, buf.Bytes()...)
-	}
+	// replace, not extend, what a reused token still holds
+	t.Optional = append(t.Optional[:0], buf.Bytes()...)
 	return nil
 }
 
